@@ -19,6 +19,7 @@ type worldRun struct {
 	prof  world.Profile
 	steps int
 	check func(c *sim.Ctx, w *world.World)
+	final func(c *sim.Ctx, w *world.World) // after the last commit, files still present
 }
 
 func (wr *worldRun) run(c *sim.Ctx) *world.World {
@@ -28,13 +29,16 @@ func (wr *worldRun) run(c *sim.Ctx) *world.World {
 	w := world.New(c, e.W, dir, wr.prof)
 	defer w.Close()
 	w.OnCommit = func() {
-		if w.Snap != nil && len(w.Snap.Tables) > 0 {
+		if w.Snap != nil && len(w.Snap.Tables) > 0 && wr.check != nil {
 			wr.check(c, w)
 		}
 	}
 	w.Build()
 	for i := 0; i < wr.steps; i++ {
 		w.Step()
+	}
+	if wr.final != nil {
+		wr.final(c, w)
 	}
 	return w
 }
